@@ -1,7 +1,7 @@
 (** Extraction of the executable model (ExtrOcamlBasic only; numbers stay
     extracted inductives). *)
 From Coq Require Import Extraction ExtrOcamlBasic.
-From Oal Require Import Text Position Tag Unify Loader Merge SpecUri Cast Cycles Resolve Lsp Peg Grammar Responses.
+From Oal Require Import Text Position Tag Unify Loader Merge SpecUri Cast Cycles Resolve Lsp Peg Grammar Responses EvalIO.
 Extraction Language OCaml.
 Separate Extraction
   Text.len8s Text.len16s Text.crlf_wf Text.split_at8 Text.utf16
@@ -16,4 +16,5 @@ Separate Extraction
   Resolve.resolve_module
   Lsp.run
   Grammar.parse_pure Grammar.parse_memo
-  Responses.xfer_responses.
+  Responses.xfer_responses
+  EvalIO.run_eval EvalIO.run_eval_lexical.
